@@ -105,7 +105,8 @@ class FunctionTransformer(converter.Base):
         if (isinstance(first_statement, ast.Expr) and
             isinstance(first_statement.value, ast.Constant)):
           docstring_node = first_statement
-          node.body = node.body[1:]
+          # A function may consist of its docstring alone.
+          node.body = node.body[1:] or [ast.Pass()]
 
       template = """
         with ag__.FunctionScope(
